@@ -46,6 +46,12 @@ Lemma iter_fst {A B} (p : A * B -> A * B) (q : A -> A) :
 Proof. intros Hp k s. induction k as [|k IH]; [reflexivity|].
   change (fst (p (Nat.iter k p s)) = q (Nat.iter k q (fst s))). rewrite Hp, IH. reflexivity. Qed.
 
+Lemma iter_ext {A} (f g : A -> A) : (forall x, f x = g x) -> forall k a, Nat.iter k f a = Nat.iter k g a.
+Proof. intros E k a. induction k as [|k IH]; [reflexivity|].
+  change (f (Nat.iter k f a) = g (Nat.iter k g a)). rewrite IH. apply E. Qed.
+Lemma iter_S {A} (f : A -> A) k a : Nat.iter (S k) f a = f (Nat.iter k f a).
+Proof. reflexivity. Qed.
+
 (* a sequence that repeats once repeats forever *)
 Lemma iter_fixed_stays {A} (q : A -> A) a n :
   Nat.iter (S n) q a = Nat.iter n q a -> forall m, (n <= m)%nat -> Nat.iter m q a = Nat.iter n q a.
@@ -119,11 +125,12 @@ Ltac bprep :=
          | H : _ /\ _ |- _ => destruct H
          | H : True |- _ => clear H
          | H : ?x = ?y |- _ => is_var x; is_var y; subst y
-         end.
+         end;
+  cbn beta iota delta [fst snd].
 Ltac bleaf unf := unf; cbv beta delta [rel Rel_arrZ Rel_pair Rel_eq]; cbn [fst snd]; repeat split; reflexivity.
 
 Ltac bwalk unf :=
-  cbv beta;
+  cbn beta iota delta [fst snd];
   lazymatch goal with
   | |- ?Q (let x := for_list ?l ?b ?s in @?F x) (let x' := for_list ?l ?b' ?s' in @?F' x') =>
       let H := fresh "H" in let X := fresh "X" in let X' := fresh "X" in
@@ -301,8 +308,111 @@ Proof.
   apply (iter_fixed_stays _ _ _ Eq). lia.
 Qed.
 
+(* ---------- facts about fteik2d_p1 (straight-line code) ---------- *)
+Lemma i_nz_eq grad : i_nz grad = dim slow 0 + 1.
+Proof. unfold i_nz, p1. cbv beta delta [fteik2d_p1]. reflexivity. Qed.
+Lemma i_nx_eq grad : i_nx grad = dim slow 1 + 1.
+Proof. unfold i_nx, p1. cbv beta delta [fteik2d_p1]. reflexivity. Qed.
+Lemma i_tt1_eq grad : i_tt1 grad = full [dim slow 0 + 1; dim slow 1 + 1] Big.
+Proof. unfold i_tt1, p1. cbv beta delta [fteik2d_p1]. reflexivity. Qed.
+Lemma p1_indep :
+  i_iflag true = i_iflag false /\ i_nx true = i_nx false /\ i_nz true = i_nz false /\ i_tt1 true = i_tt1 false /\
+  i_vzero true = i_vzero false /\ i_xsa true = i_xsa false /\ i_xsi true = i_xsi false /\
+  i_zsa true = i_zsa false /\ i_zsi true = i_zsi false.
+Proof.
+  unfold i_iflag, i_nx, i_nz, i_tt1, i_vzero, i_xsa, i_xsi, i_zsa, i_zsi, p1. cbv beta delta [fteik2d_p1].
+  repeat split; reflexivity.
+Qed.
+
+(* ---------- 3 ---------- *)
+(* i_tt grad is the first component of init2d grad *)
+Theorem fteik2d_init_okT grad :
+  0 <= dim slow 0 -> 0 <= dim slow 1 -> okT (dim slow 0 + 1) (dim slow 1 + 1) (i_tt grad).
+Proof.
+  intros Hz Hx.
+  pose proof (fteik2d_p2_sig dx dz grad (i_iflag grad) (i_nx grad) (i_nz grad) slow (i_tt1 grad) (i_ttgrad1 grad)
+                (i_ttsgn1 grad) (i_vzero grad) (i_xsa grad) (i_xsi grad) (i_zsa grad) (i_zsi grad)) as E.
+  unfold tt_keeps in E. fold (p2 grad) in E. fold (i_tt grad) in E. rewrite i_tt1_eq in E.
+  split.
+  - apply (sig_wf _ _ E). apply wf_full. repeat constructor; lia.
+  - unfold sig in E. injection E as E _. exact E.
+Qed.
+Lemma init2d_tt grad : fst (fst (fst (fst (fst (fst (fst (fst (fst (init2d grad))))))))) = i_tt grad.
+Proof. reflexivity. Qed.
+
+(* ---------- 6 ---------- *)
+Lemma i_tt_indep : i_tt true = i_tt false.
+Proof.
+  unfold i_tt, p2. destruct p1_indep as (-> & -> & -> & -> & -> & -> & -> & -> & ->).
+  apply fteik2d_p2_tt_indep.
+Qed.
+Lemma ptt_indep t : ptt true t = ptt false t.
+Proof.
+  unfold ptt, pass2d. destruct p1_indep as (_ & -> & -> & _ & -> & -> & -> & -> & ->).
+  apply sweep2d_tt_indep.
+Qed.
+
+Theorem fteik2d_tt_indep_of_grad nsweep :
+  match fteik2d slow dz dx zsrc xsrc nsweep true, fteik2d slow dz dx zsrc xsrc nsweep false with
+  | Ok (t1, _, v1), Ok (t2, _, v2) => t1 = t2 /\ v1 = v2
+  | Raise e1, Raise e2 => e1 = e2
+  | _, _ => False
+  end.
+Proof.
+  destruct (fteik2d_char nsweep true) as [G1 E1]. destruct (fteik2d_char nsweep false) as [G2 E2].
+  rewrite E1, E2. destruct inside2d; [|reflexivity]. split.
+  - rewrite !(iter_fst _ _ (pass2d_fst _)). cbn [fst]. rewrite i_tt_indep. apply iter_ext, ptt_indep.
+  - destruct p1_indep as (_ & _ & _ & _ & E & _). exact E.
+Qed.
+
+(* ---------- 4 ---------- *)
+Section Laws.
+Context `{!NumLaws T}.
+Notation NZ := (dim slow 0 + 1).
+Notation NX := (dim slow 1 + 1).
+
+Lemma ptt_lowers grad t : okT NZ NX t -> okT NZ NX (ptt grad t) /\ leT NZ NX (ptt grad t) t.
+Proof. intros Hok. unfold ptt, pass2d. cbn [fst snd]. rewrite i_nz_eq, i_nx_eq. apply sweep2d_lowers. exact Hok. Qed.
+
+Lemma iter_ptt_okT grad t k : okT NZ NX t -> okT NZ NX (Nat.iter k (ptt grad) t).
+Proof. intros Hok. induction k as [|k IH]; [exact Hok|]. rewrite iter_S. apply ptt_lowers, IH. Qed.
+
+Lemma iter_ptt_mono grad t a b : okT NZ NX t -> (a <= b)%nat ->
+  leT NZ NX (Nat.iter b (ptt grad) t) (Nat.iter a (ptt grad) t).
+Proof.
+  intros Hok Hab. induction Hab as [|b Hab IH].
+  - apply leT_refl, iter_ptt_okT, Hok.
+  - rewrite iter_S. eapply leT_trans; [|exact IH]. apply ptt_lowers, iter_ptt_okT, Hok.
+Qed.
+
+(* all n <= m (item 4 is m = n + 1); no condition on the sign of n: a non-positive nsweep means no sweep *)
+Theorem fteik2d_monotone_in_nsweep_le grad n m ttn Gn vn ttm Gm vm :
+  0 <= dim slow 0 -> 0 <= dim slow 1 -> n <= m ->
+  fteik2d slow dz dx zsrc xsrc n grad = Ok (ttn, Gn, vn) ->
+  fteik2d slow dz dx zsrc xsrc m grad = Ok (ttm, Gm, vm) ->
+  okT NZ NX ttn /\ okT NZ NX ttm /\ leT NZ NX ttm ttn.
+Proof.
+  intros Hz Hx Hnm En Em.
+  apply fteik2d_ok_inv in En as (_ & -> & _). apply fteik2d_ok_inv in Em as (_ & -> & _).
+  pose proof (fteik2d_init_okT grad Hz Hx) as H0.
+  split; [apply iter_ptt_okT, H0|]. split; [apply iter_ptt_okT, H0|].
+  apply iter_ptt_mono; [exact H0 | lia].
+Qed.
+
+Theorem fteik2d_monotone_in_nsweep grad n ttn Gn vn ttm Gm vm :
+  0 <= dim slow 0 -> 0 <= dim slow 1 ->
+  fteik2d slow dz dx zsrc xsrc n grad = Ok (ttn, Gn, vn) ->
+  fteik2d slow dz dx zsrc xsrc (n + 1) grad = Ok (ttm, Gm, vm) ->
+  okT NZ NX ttn /\ okT NZ NX ttm /\ leT NZ NX ttm ttn.
+Proof. intros Hz Hx. apply fteik2d_monotone_in_nsweep_le; auto. lia. Qed.
+End Laws.
+
 End Solve.
 
 Print Assumptions fteik2d_raises_iff.
 Print Assumptions fteik2d_nsweep_iter.
 Print Assumptions fteik2d_fixed_stays.
+Print Assumptions fteik2d_init_okT.
+Print Assumptions fteik2d_monotone_in_nsweep.
+Print Assumptions fteik2d_monotone_in_nsweep_le.
+Print Assumptions fteik2d_tt_indep_of_grad.
